@@ -757,6 +757,33 @@ func (v *Verifier) externalModel(name string) *extModel {
 
 var extModels = map[string]*extModel{}
 
+func init() {
+	// sort.Slice(x, less): x is a slice boxed in an interface; its backing array is permuted.
+	// Assumed: less is pure, sort.Slice only swaps elements of x and terminates.
+	extModels["sort.Slice"] = &extModel{fn: func(fr *Frame, x *ssa.Call, args []*Val) []*Val {
+		box := args[0]
+		if tag, ok := box.S.Int64(); ok {
+			if t := fr.u.v.tagTypes[tag]; t != nil {
+				if sl, ok := t.Underlying().(*types.Slice); ok {
+					hdr := fr.st.load(t, box.Ref, IntLit(0))
+					fr.checkWrite(x, hdr.Ref, hdr.Off, Mul(IntLit(sizeOf(sl.Elem())), hdr.Len))
+					seen := map[string]bool{}
+					for _, k := range cellKinds(sl.Elem()) {
+						if !seen[k] {
+							seen[k] = true
+							fr.st.setRow(k, hdr.Ref, Fresh("row!sorted", ArrS(IntS, kindSort(k))))
+						}
+					}
+					fr.u.assumed["sort.Slice: permutes the slice in place using only the comparator (which must be pure); element values after the call are unconstrained in this model"] = true
+					return nil
+				}
+			}
+		}
+		unsup("sort.Slice on a value whose dynamic type is not statically known")
+		return nil
+	}}
+}
+
 // ---- constant initialisers of globals
 
 func (p *Program) allPackages() []*packages.Package {
